@@ -134,7 +134,7 @@ def gen_case(seed, run, tier):
         else:
             single = False
     precip = spec["kind"].startswith("precip")
-    nops = rs.randint(1, 4)
+    nops = rs.randint(1, 4) if tier == "quick" else rs.randint(2, 6)
     ops = []
     for _ in range(nops):
         roll = rs.random()
@@ -169,8 +169,8 @@ def gen_case(seed, run, tier):
                     init[n] = _logu(rw, -4, -1)
             e0["K"] = min(e0["K"], 10 ** rw.uniform(-12, -8))
     kinds = [k for k in NSV.FAULT_KINDS if rs.random() < 0.8] or ["fail_nan"]
-    enum = {"kinds": kinds, "early": sorted(rf.sample(range(1, 21), 3)), "max_inv": 6,
-            "pairs": 0 if tier == "quick" else 4, "fseed": rf.randrange(1 << 30)}
+    enum = {"kinds": kinds, "early": sorted(rf.sample(range(1, 21), 3 if tier == "quick" else 6)), "max_inv": 6 if tier == "quick" else 14,
+            "pairs": 0 if tier == "quick" else 6, "fseed": rf.randrange(1 << 30)}
     panel = list(range(run * PANEL_PER_RUN, (run + 1) * PANEL_PER_RUN))
     return {"property": PROPERTY, "spec": spec, "init": init, "ops": ops, "enumerate": enum, "panel": panel}
 
